@@ -198,9 +198,11 @@ func templates(thorough bool) []tmpl {
 	return t
 }
 
-// histories enumerates, in order of length, all sequences of 1..maxLen templates; for every block
-// after the first the parent is every earlier block or (if forks) the empty state.
-func histories(ts []tmpl, maxLen int, forks bool, maxBig int, visit func(idx int64, h History, nbig int) bool) {
+// histories enumerates, in order of length, all sequences of 1..maxLen templates.  Parent of block
+// i > 0: thorough = every earlier block and the empty state (all fork shapes); quick = the previous
+// block, plus for the last block of a history the block before the previous one / the empty state
+// (a sibling fork committed after its competitor).
+func histories(ts []tmpl, maxLen int, allForks bool, maxBig int, visit func(idx int64, h History, nbig int) bool) {
 	var idx int64
 	var rec func(h History, nbig int, want int) bool
 	rec = func(h History, nbig int, want int) bool {
@@ -218,11 +220,17 @@ func histories(ts []tmpl, maxLen int, forks bool, maxBig int, visit func(idx int
 			if nb > maxBig {
 				continue
 			}
-			lo := i - 1
-			if forks && i > 0 {
-				lo = -1
+			parents := []int{i - 1}
+			if i > 0 {
+				if allForks {
+					for p := i - 2; p >= -1; p-- {
+						parents = append(parents, p)
+					}
+				} else if i == want-1 {
+					parents = append(parents, i-2)
+				}
 			}
-			for p := i - 1; p >= lo; p-- {
+			for _, p := range parents {
 				nh := History{Blocks: append(append([]Block{}, h.Blocks...), Block{T: t.name, Parent: p, Ops: t.ops})}
 				if !rec(nh, nb, want) {
 					return false
@@ -464,7 +472,7 @@ type trace struct {
 	ack       []int // len(log) when block i was acknowledged
 	retried   []bool
 	liveErr   string // a commit that never reported success / a panic: blocks after it are not run
-	modelDiff string // warm view of the live database differs from the model (model problem, not C03)
+	modelDiff string // the state computed by the repository differs from the model (model problem, not C03): history cut there
 }
 
 // mapVariant decides the start offset of every Go map iteration on the goroutine that runs the
@@ -494,9 +502,13 @@ func runHistory(h History, scale, failAt, mapVar int) (tr *trace) {
 			parentRoot = tr.roots[blk.Parent]
 			snap = tr.snaps[blk.Parent].clone()
 		}
+		for _, o := range blk.Ops {
+			snap.apply(o)
+		}
 		var root common.Hash
 		var cerr error
 		retried := false
+		guard := ""
 		p, v, site := fw.Try(func() {
 			st, err := account.NewAccountDB(parentRoot, live)
 			if err != nil {
@@ -506,12 +518,27 @@ func runHistory(h History, scale, failAt, mapVar int) (tr *trace) {
 			for _, o := range blk.Ops {
 				applyReal(st, o)
 			}
+			first := true
 			commit := func() error {
 				r, err := st.Commit(true)
 				if err != nil {
 					return err
 				}
 				root = r
+				if first {
+					// Oracle guard (never a C03 verdict): the state the repository just computed, read
+					// while all its new nodes are still in memory, must be what the model says.  A
+					// disagreement means the model does not describe this history; the history is cut here.
+					first = false
+					if w, err := account.NewAccountDB(r, live); err != nil {
+						guard = "warm open: " + err.Error()
+					} else if f, d := compareAPI(w, snap); f != "" {
+						guard = fmt.Sprintf("block %d %s: %s", bi, f, d)
+					}
+					if guard != "" {
+						return nil
+					}
+				}
 				return live.TrieDB().Commit(r, false)
 			}
 			cerr = commit()
@@ -530,21 +557,14 @@ func runHistory(h History, scale, failAt, mapVar int) (tr *trace) {
 			tr.liveErr = "commit-error:" + cerr.Error()
 			return tr
 		}
-		for _, o := range blk.Ops {
-			snap.apply(o)
+		if guard != "" {
+			tr.modelDiff = guard
+			return tr
 		}
 		tr.roots = append(tr.roots, root)
 		tr.snaps = append(tr.snaps, snap)
 		tr.ack = append(tr.ack, len(rec.log))
 		tr.retried = append(tr.retried, retried)
-		// model sanity on the warm database (guards the oracle, never a C03 verdict)
-		if tr.modelDiff == "" {
-			if st, err := account.NewAccountDB(root, live); err != nil {
-				tr.modelDiff = "warm open: " + err.Error()
-			} else if f, d := compareAPI(st, snap); f != "" {
-				tr.modelDiff = fmt.Sprintf("block %d %s: %s", bi, f, d)
-			}
-		}
 	}
 	return tr
 }
@@ -758,9 +778,8 @@ type viol struct {
 }
 
 type stats struct {
-	evals, nontrivial                    int64
-	maxBatchesPerCommit, multiBatchCommits int64
-	outcomes                             map[string]int64
+	evals, nontrivial int64
+	outcomes          map[string]int64
 }
 
 func (s *stats) out(o string) {
@@ -778,21 +797,24 @@ func checkPrefixes(h History, scale, mapVar int, s *stats) (vs []viol, tr *trace
 		s.out("live:" + strings.SplitN(tr.liveErr, ":", 3)[0])
 	}
 	if tr.modelDiff != "" {
-		s.out("model-differs-from-warm-state")
-		return nil, tr
+		s.out("model-differs-from-warm-state") // blocks before the disagreement are still examined
 	}
 	log := tr.rec.log
-	// commits split over several physical writes
-	per := map[int]int64{}
+	// how many physical writes one commit was split into
+	per := map[int]int{}
 	for _, e := range log {
 		per[e.block]++
 	}
 	for _, n := range per {
-		if n > 1 {
-			s.multiBatchCommits++
-		}
-		if n > s.maxBatchesPerCommit {
-			s.maxBatchesPerCommit = n
+		switch {
+		case n == 1:
+			s.out("commit-in-1-write")
+		case n <= 3:
+			s.out("commit-in-2..3-writes")
+		case n <= 19:
+			s.out("commit-in-4..19-writes")
+		default:
+			s.out("commit-in-20+-writes")
 		}
 	}
 	disk := map[string][]byte{}
@@ -894,7 +916,6 @@ func checkFaults(h History, scale, mapVar, nwrites int, s *stats, expired func()
 		s.nontrivial++
 		if tr.modelDiff != "" {
 			s.out("model-differs-from-warm-state")
-			continue
 		}
 		if tr.liveErr != "" {
 			// the commit never reported success: the property promises nothing about that root
@@ -959,6 +980,44 @@ func sameSigs(a, b []viol) bool {
 	return len(x) == 0
 }
 
+// dropBlock returns h without block i (children of i are re-parented to i's parent).
+func dropBlock(h History, i int) History {
+	var n History
+	for j, b := range h.Blocks {
+		if j == i {
+			continue
+		}
+		nb := b
+		if b.Parent == i {
+			nb.Parent = h.Blocks[i].Parent
+		}
+		if nb.Parent > i {
+			nb.Parent--
+		}
+		n.Blocks = append(n.Blocks, nb)
+	}
+	return n
+}
+
+// minimise drops blocks as long as find still reports a violation with the same signature.
+func minimise(v viol, find func(h History) []viol) viol {
+	for again := true; again; {
+		again = false
+		for i := len(v.cs.History.Blocks) - 1; i >= 0 && len(v.cs.History.Blocks) > 1; i-- {
+			for _, w := range find(dropBlock(v.cs.History, i)) {
+				if w.sig == v.sig {
+					v, again = w, true
+					break
+				}
+			}
+			if again {
+				break
+			}
+		}
+	}
+	return v
+}
+
 func run(c *fw.Ctx) {
 	boot()
 	if pf := os.Getenv("VERIF_C03_PROF"); pf != "" {
@@ -967,20 +1026,21 @@ func run(c *fw.Ctx) {
 		defer pprof.StopCPUProfile()
 	}
 	ts := templates(c.Thorough())
-	maxLen, forks, maxBig := 3, false, 1
-	mapVars := []int{0, 1}
+	maxBig := 1
 	if c.Thorough() {
-		forks, maxBig = true, 2
+		maxBig = 2
 	}
+	mapVars := []int{0, 1}
 	var s stats
 	var sampled int
 	capped := false
 	var unit int64
-	histories(ts, maxLen, forks, maxBig, func(_ int64, h History, nbig int) bool {
+	never := func() bool { return false }
+	histories(ts, 3, true, maxBig, func(_ int64, h History, nbig int) bool {
 		scales := []int{scaleReal, scaleFine}
 		if nbig > 0 {
 			scales = []int{scaleReal, scaleMid}
-			if c.Thorough() && len(h.Blocks) <= 2 {
+			if len(h.Blocks) <= 2 && nbig == 1 {
 				scales = append(scales, scaleFine)
 			}
 		}
@@ -999,6 +1059,7 @@ func run(c *fw.Ctx) {
 				}
 				vs, tr := checkPrefixes(h, sc, mv, &s)
 				if len(vs) > 0 {
+					// same input, same observation, or it is not recorded
 					again, _ := checkPrefixes(h, sc, mv, &stats{})
 					if !sameSigs(vs, again) {
 						s.out("unstable-observation")
@@ -1006,28 +1067,34 @@ func run(c *fw.Ctx) {
 					}
 				}
 				for _, v := range vs {
+					v = minimise(v, func(h2 History) []viol { r, _ := checkPrefixes(h2, sc, mv, &stats{}); return r })
 					c.Violation(v.sig, v.part, v.msg, v.cs)
 				}
-				if sampled < 2 && len(h.Blocks) == 3 && len(tr.rec.log) > 3 {
+				if sampled < 2 && len(tr.roots) == 3 && len(tr.rec.log) > 3 {
 					sampled++
 					c.Sample(map[string]interface{}{"history": h.name(), "scale": sc, "map_var": mv,
 						"physical_writes": len(tr.rec.log), "ack_after_write": tr.ack,
-						"roots": []string{hex.EncodeToString(tr.roots[0][:6]), hex.EncodeToString(tr.roots[len(tr.roots)-1][:6])}})
+						"roots": []string{hex.EncodeToString(tr.roots[0][:6]), hex.EncodeToString(tr.roots[1][:6]), hex.EncodeToString(tr.roots[2][:6])}})
 				}
 				// write faults: real sizes always; finer granularities only for the small histories
-				if tr.modelDiff == "" && tr.liveErr == "" && (nbig == 0 || sc == scaleReal) && mv == 0 {
+				if (nbig == 0 || sc == scaleReal) && mv == 0 {
 					fv, done := checkFaults(h, sc, mv, len(tr.rec.log), &s, c.Expired)
 					if !done {
 						capped = true
 					}
 					if len(fv) > 0 {
-						again, _ := checkFaults(h, sc, mv, len(tr.rec.log), &stats{}, func() bool { return false })
+						again, _ := checkFaults(h, sc, mv, len(tr.rec.log), &stats{}, never)
 						if !sameSigs(fv, again) {
 							s.out("unstable-observation")
 							fv = nil
 						}
 					}
 					for _, v := range fv {
+						v = minimise(v, func(h2 History) []viol {
+							t2 := runHistory(h2, sc, -1, mv)
+							r, _ := checkFaults(h2, sc, mv, len(t2.rec.log), &stats{}, never)
+							return r
+						})
 						c.Violation(v.sig, v.part, v.msg, v.cs)
 					}
 				}
@@ -1041,18 +1108,13 @@ func run(c *fw.Ctx) {
 	c.Eval(s.evals)
 	c.NontrivialN(s.nontrivial)
 	for o, n := range s.outcomes {
-		for i := int64(0); i < n && i < 1; i++ {
-			c.Outcome(o)
-		}
+		c.Outcome(o)
 		c.Count("n:"+o, n)
 	}
-	c.Count("commits_split_over_several_writes", s.multiBatchCommits)
 	if c.Shard == 0 {
 		c.Note("templates", len(ts))
 		c.Note("ideal_batch_size", xdb.IdealBatchSize)
 	}
-	c.Count("max_writes_per_commit_seen_by_a_worker", 0)
-	c.Note(fmt.Sprintf("max_writes_per_commit_w%02d", c.Shard), s.maxBatchesPerCommit)
 }
 
 func replay(c *fw.Ctx, raw json.RawMessage) {
@@ -1084,7 +1146,7 @@ func main() {
 	fw.Main(fw.Check{
 		ID: "C03", Level: "fault_enumeration",
 		Rule: "evaluation = (history, write-granularity, map-order variant, prefix p of the physical write log) with all acknowledged and all on-disk-top-node roots cold-opened and walked, " +
-			"plus (history, failing write p) re-commit cases; histories = all sequences of 1..3 block templates (thorough: every parent choice incl. forks from older roots / the empty state); " +
+			"plus (history, failing write p) re-commit cases; histories = all sequences of 1..3 block templates x parent choices (quick: linear chain, and the last block also as a sibling fork; thorough: every earlier root or the empty state as parent of every block); " +
 			"non-trivial = prefix strictly inside one commit (not at a block boundary, not 0) or a write fault that was actually injected",
 		Assumptions: []string{
 			"one Batch.Write / Put / Delete is atomic and ordered (LevelDB journal semantics); torn writes inside one batch and fsync loss on power failure are outside the bound",
